@@ -1,4 +1,5 @@
 import OdcGeo.Model.C07
+import OdcGeo.Model.C07Fix
 import OdcGeo.Model.Affine
 import OdcGeo.Drv.C01
 namespace OdcGeo.C07.Drv
@@ -138,6 +139,169 @@ def parseCPt? (s : String) : Option (Coord Rat × Coord Rat) :=
     | _, _ => none
   | _ => none
 
+
+/-! ### second part (Model/C07Fix): option paths of `to_crs`, `filter`, `lonlat_bounds` -/
+
+/-- a coordinate that is not finite on the Python side (`nan`, `±inf`) is sent as this number -/
+def nanV : Rat := (2 : Rat) ^ 200
+
+def absR (x : Rat) : Rat := if x < 0 then -x else x
+
+/-- `math.isfinite(x) and math.isfinite(y)` under the encoding above -/
+def finitePt (p : Pt Rat) : Bool := decide (absR p.x < (2 : Rat) ^ 190) && decide (absR p.y < (2 : Rat) ^ 190)
+
+/-- stand-in projection that fails (NaN in x only: the tuple branch of the transformer does not harmonise)
+for source points with `x > 1000`, and fails in both coordinates for `x < -1000` -/
+def fakeProjNF (s t : C01.CrsRec) (p : Pt Rat) : Pt Rat :=
+  if 1000 < p.x then ⟨nanV, (fakeProj s t p).y⟩
+  else if p.x < -1000 then ⟨nanV, nanV⟩
+  else fakeProj s t p
+
+def parsePred? (s : String) : Option (Pt Rat → Bool) :=
+  match s.splitOn ":" with
+  | ["all"] => some (fun _ => true)
+  | ["none"] => some (fun _ => false)
+  | ["fin"] => some finitePt
+  | ["xlt", v] => (parseRat? v).map (fun v p => decide (p.x < v))
+  | ["xge", v] => (parseRat? v).map (fun v p => decide (v ≤ p.x))
+  | ["ylt", v] => (parseRat? v).map (fun v p => decide (p.y < v))
+  | ["yge", v] => (parseRat? v).map (fun v p => decide (v ≤ p.y))
+  | ["band", a, b] => match parseRat? a, parseRat? b with
+    | some a, some b => some (fun p => decide (a ≤ p.x) && decide (p.x < b))
+    | _, _ => none
+  | _ => none
+
+def fmtFiltered : Filtered Rat → String
+  | .emptyPoint => "EMPTYPOINT"
+  | .geom g => geomStr g
+
+def fmtRes7 {α : Type} (f : α → String) : Res7 α → String
+  | .error e => e.toStr
+  | .ok a => f a
+
+mutual
+def anyNonFinite : Geom Rat → Bool
+  | .point p => !finitePt p
+  | .multiPoint ps => ps.any (fun p => !finitePt p)
+  | .lineString cs => cs.any (fun p => !finitePt p)
+  | .linearRing cs => cs.any (fun p => !finitePt p)
+  | .polygon ext holes => ext.any (fun p => !finitePt p) || holes.any (fun h => h.any (fun p => !finitePt p))
+  | .multiLineString gs => anyNonFiniteL gs
+  | .multiPolygon gs => anyNonFiniteL gs
+  | .collection gs => anyNonFiniteL gs
+def anyNonFiniteL : List (Geom Rat) → Bool
+  | [] => false
+  | g :: gs => anyNonFinite g || anyNonFiniteL gs
+end
+
+def fmtBox : Option (Rat × Rat × Rat × Rat) → String
+  | none => "EMPTY"
+  | some bb => s!"{fmtRat bb.1} {fmtRat bb.2.1} {fmtRat bb.2.2.1} {fmtRat bb.2.2.2}"
+
+def resIrr (res : Resolution Rat) (autoV : Rat) (g : Geom Rat) : Bool :=
+  let r? : Option Rat := match res with
+    | .val r => some r | .auto => some autoV | _ => none
+  match r? with
+  | some r => decide (0 < r) && !(ringsAllRational r g)
+  | none => false
+
+mutual
+def fmtGJ : GJ Rat → List String
+  | .feature f => ["F", fmtFiltered f]
+  | .fc fs => ["FC", toString (lenGJ fs)] ++ fmtGJs fs
+def fmtGJs : List (GJ Rat) → List String
+  | [] => []
+  | f :: fs => fmtGJ f ++ fmtGJs fs
+def lenGJ : List (GJ Rat) → Nat
+  | [] => 0
+  | _ :: fs => lenGJ fs + 1
+end
+
+def run2 (args : List String) : Option String :=
+  match args with
+  | "geojson" :: variant :: src :: t4326 :: wd :: eps :: res :: toks => do
+    -- simplify=0; `hit` = false (geometries away from the projected antimeridian)
+    let src ← C01.Drv.parseTag? src
+    let t4326 ← C01.Drv.parseTag? t4326
+    let t4326 ← t4326
+    let wd ← parseBool? wd; let eps ← parseRat? eps
+    let (res, autoV) ← parseRes? res
+    let (g, rest) ← parseGeom 64 toks
+    if rest ≠ [] then none
+    else if src.isSome && resIrr res autoV g then pure "IRRATIONAL"
+    else
+      let o : GJOpts Rat := ⟨envRat, fakeProj, fun _ => autoV, fun _ => false, fun _ => [], 180, eps, t4326, id, res, wd,
+        variant = "F"⟩
+      pure (fmtRes7 (fun j => " ".intercalate (fmtGJ j)) (geojson o src g))
+  | ["closering", cs] => do
+    let cs ← parseList? parsePt? cs
+    pure (fmtRes7 fmtPts (closeRing cs))
+  | "mkpolygon" :: k :: ext :: rest => do
+    let k ← parseNat? k
+    let ext ← parseList? parsePt? ext
+    let (holes, rest) ← takeRings k rest
+    if rest ≠ [] then none else pure (fmtRes7 geomStr (mkPolygon ext holes))
+  | "multigeom" :: n :: toks => do
+    let n ← parseNat? n
+    let (gs, rest) ← parseGeoms 64 n toks
+    if rest ≠ [] then none else pure (fmtRes7 geomStr (multigeomRaw gs))
+  | "clip2" :: variant :: tol :: toks => do
+    let tol ← parseRat? tol
+    let (g, rest) ← parseGeom 64 toks
+    if rest ≠ [] then none
+    else if variant = "R" then pure (fmtRes7 geomStr (clipLon180R (180 : Rat) tol g))
+    else if variant = "F" then pure (fmtRes7 geomStr (clipLon180AsFound (180 : Rat) tol g))
+    else none
+  | "filter" :: pred :: toks => do
+    let pred ← parsePred? pred
+    let (g, rest) ← parseGeom 64 toks
+    if rest ≠ [] then none else pure (fmtRes7 fmtFiltered (filterGeom pred g))
+  | "tocrsall" :: variant :: src :: dst :: geo :: wd :: caf :: eps :: res :: v0 :: v1 :: toks => do
+    -- `hit` = false: the harness only sends geometries that do not meet the projected antimeridian;
+    -- `is_valid` of the projected geometry / of what `dropna` left are observed on the real run (v0, v1)
+    let src ← C01.Drv.parseTag? src; let dst ← C01.Drv.parseTag? dst
+    let geo ← parseBool? geo; let wd ← parseBool? wd; let caf ← parseBool? caf; let eps ← parseRat? eps
+    let (res, autoV) ← parseRes? res
+    let v0 ← parseBool? v0; let v1 ← parseBool? v1
+    let (g, rest) ← parseGeom 64 toks
+    if rest ≠ [] then none
+    else if resIrr res autoV g then pure "IRRATIONAL"
+    else
+      let isValid : Geom Rat → Bool := fun x => if anyNonFinite x then v0 else v1
+      let go := fun (buffer0 : Geom Rat → Geom Rat) =>
+        (if variant = "F" then toCrsAllAsFound else toCrsAll) envRat fakeProjNF (fun _ => autoV) (fun _ => false)
+          (fun _ => []) isValid buffer0 finitePt (180 : Rat) eps ⟨src, g⟩ dst geo res wd caf
+      let show_ := fun (r : Res7 (C01.Tag × Filtered Rat)) =>
+        fmtRes7 (fun (x : C01.Tag × Filtered Rat) => C01.Drv.fmtTag x.1 ++ " " ++ fmtFiltered x.2) r
+      let a := show_ (go id)
+      let b := show_ (go (fun _ => .point ⟨0, 0⟩))
+      pure ((if a = b then "buffer0=F " else "buffer0=T ") ++ a)
+  | "lonlat" :: src :: t4326 :: geo :: safe :: res :: v0 :: v1 :: toks => do
+    let src ← C01.Drv.parseTag? src
+    let t4326 ← C01.Drv.parseTag? t4326
+    let t4326 ← t4326
+    let geo ← parseBool? geo; let safe ← parseBool? safe
+    let (res, autoV) ← parseRes? res
+    let v0 ← parseBool? v0; let v1 ← parseBool? v1
+    let (g, rest) ← parseGeom 64 toks
+    if rest ≠ [] then none
+    else if !geo && resIrr res autoV g then pure "IRRATIONAL"
+    else
+      let isValid : Geom Rat → Bool := fun x => if anyNonFinite x then v0 else v1
+      pure (fmtRes7 (fun (x : C01.Tag × Option (Rat × Rat × Rat × Rat)) => C01.Drv.fmtTag x.1 ++ " " ++ fmtBox x.2)
+        (lonlatBounds envRat fakeProjNF (fun _ => autoV) isValid id finitePt (180 : Rat) (360 : Rat) t4326 ⟨src, g⟩ geo safe res))
+  | ["wrap", safe, x0, x1] => do
+    let safe ← parseBool? safe; let x0 ← parseRat? x0; let x1 ← parseRat? x1
+    let r := lonlatWrap safe (180 : Rat) (360 : Rat) x0 x1
+    pure s!"{fmtRat r.1} {fmtRat r.2}"
+  | "midlon" :: src :: t4326 :: cx :: cy :: [] => do
+    let src ← C01.Drv.parseTag? src
+    let t4326 ← C01.Drv.parseTag? t4326
+    let t4326 ← t4326
+    let cx ← parseRat? cx; let cy ← parseRat? cy
+    pure (fmtRes fmtRat (midLongitude envRat fakeProj (fun _ => 0) (fun _ => ⟨cx, cy⟩) t4326 ⟨src, .point ⟨0, 0⟩⟩))
+  | _ => none
+
 def run (args : List String) : Option String :=
   match args with
   | ["densify", r, cs] => do
@@ -223,6 +387,6 @@ def run (args : List String) : Option String :=
   | ["harm", pts] => do
     let ps ← parseList? parseCPt? pts
     pure (fmtList (fun (p : Coord Rat × Coord Rat) => s!"{fmtCoord p.1};{fmtCoord p.2}") (ps.map harmonise))
-  | _ => none
+  | other => run2 other
 
 end OdcGeo.C07.Drv
